@@ -201,14 +201,11 @@ Definition django_extra_used (_ : jv) (c : ctx) : res (option rissue) :=
 Definition rawsql_issue : rissue :=
   RIssue MEDIUM MEDIUM 89 (s2p "Use of RawSQL potential SQL attack vector.") None None None None.
 
-(* the expression taken for the SQL text: args[0], else kwargs["sql"] (KeyError when absent) *)
-Definition rawsql_sql (call : node) : res node :=
+(* the expression taken for the SQL text: args[0], else kwargs.get("sql") (None when absent) *)
+Definition rawsql_sql (call : node) : option node :=
   match field_list "args" call with
-  | a :: _ => Ok a
-  | [] => match kw_last (s2p "sql") (field_list "keywords" call) with
-          | Some v => Ok v
-          | None => Raise KeyError
-          end
+  | a :: _ => Some a
+  | [] => kw_last (s2p "sql") (field_list "keywords" call)
   end.
 
 Definition rawsql_applies (c : ctx) : bool :=
@@ -216,8 +213,10 @@ Definition rawsql_applies (c : ctx) : bool :=
 
 Definition django_rawsql_used (_ : jv) (c : ctx) : res (option rissue) :=
   if rawsql_applies c then
-    do sql <- rawsql_sql (c_node c);;
-    if is_Str sql then Ok None else Ok (Some rawsql_issue)
+    match rawsql_sql (c_node c) with
+    | None => Ok None                       (* RawSQL() / RawSQL with only **kw: "if sql is None: return" *)
+    | Some sql => if is_Str sql then Ok None else Ok (Some rawsql_issue)
+    end
   else Ok None.
 
 (* ------------------------------------------------------------------------------------------------ *)
@@ -582,7 +581,7 @@ Definition transform2call (v : node) : node :=
 Definition is_mod_of_literal (v : node) : bool :=
   is_cls "BinOp" v && is_cls "Mod" (field "op" v) && is_Str (field "left" v).
 
-(* check_risk's verdict *)
+(* check_risk's verdict on its argument *)
 Definition mark_safe_secure (c : ctx) (xss : node) : res bool :=
   if is_cls "Name" xss then
     do parent <- enclosing_scope c;;
@@ -604,13 +603,15 @@ Definition mark_safe_applies (c : ctx) : bool :=
   is_module_imported_like c (s2p "django.utils.safestring")
   && match c_name c with Some n => mem_pstr n mark_safe_names | None => false end.
 
+(* check_risk(node) once node.args[0] is known to exist *)
+Definition check_risk (c : ctx) (xss : node) : res (option rissue) :=
+  do s <- mark_safe_secure c xss;; if s then Ok None else Ok (Some mark_safe_issue).
+
 Definition django_mark_safe (_ : jv) (c : ctx) : res (option rissue) :=
   if mark_safe_applies c then
     match field_list "args" (c_node c) with
-    | [] => Raise IndexError
-    | xss :: _ =>
-        if is_Str xss then Ok None
-        else do s <- mark_safe_secure c xss;; if s then Ok None else Ok (Some mark_safe_issue)
+    | [] => Ok None                     (* "if not context.node.args: return None" *)
+    | xss :: _ => if is_Str xss then Ok None else check_risk c xss
     end
   else Ok None.
 
